@@ -430,6 +430,123 @@ pub fn run_ws(pool: Arc<Pool>, s: &Session, seed: u64) -> SessionResult {
     })
 }
 
+/// ws under write-side back pressure: small socket buffers and a relay that does not read until the writer has stalled.
+/// The application writes `count` packets back to back (after the stall the relay drains concurrently); afterwards every
+/// message the relay received is compared, in order, with the frames written: one binary message per frame, none twice,
+/// none missing.  Events: WriteCall / WriteDone per packet, then one Unit per message observed.
+pub fn run_ws_burst(pool: Arc<Pool>, mode: &str, seed: u64, count: usize) -> SessionResult {
+    use futures_util::StreamExt;
+    use insim::net::{tokio_impl::{Framed, WebsocketStream}, Codec};
+    use tokio_tungstenite::{tungstenite::Message, MaybeTlsStream};
+    let rt = tokio::runtime::Builder::new_current_thread().enable_all().build().unwrap();
+    rt.block_on(async {
+        let mut book = Book::new(mode, pool.clone(), seed);
+        let lsock = tokio::net::TcpSocket::new_v4().expect("socket");
+        let _ = lsock.set_recv_buffer_size(4096);
+        lsock.bind("127.0.0.1:0".parse().unwrap()).expect("bind");
+        let listener = lsock.listen(4).expect("listen");
+        let addr = listener.local_addr().unwrap();
+        let url = format!("ws://127.0.0.1:{}/connect", addr.port());
+        let server = async {
+            let (tcp, _) = listener.accept().await.expect("accept");
+            let _ = socket2::SockRef::from(&tcp).set_recv_buffer_size(4096);
+            if std::env::var("LFSVERIF_DEBUG").is_ok() {
+                eprintln!("server rcvbuf {:?}", socket2::SockRef::from(&tcp).recv_buffer_size());
+            }
+            tokio_tungstenite::accept_async(tcp).await.expect("ws accept")
+        };
+        let client = async {
+            let csock = tokio::net::TcpSocket::new_v4().expect("socket");
+            let _ = csock.set_send_buffer_size(4096);
+            let tcp = csock.connect(addr).await.expect("connect");
+            let _ = socket2::SockRef::from(&tcp).set_send_buffer_size(4096);
+            if std::env::var("LFSVERIF_DEBUG").is_ok() {
+                eprintln!("client sndbuf {:?}", socket2::SockRef::from(&tcp).send_buffer_size());
+            }
+            tokio_tungstenite::client_async(url, MaybeTlsStream::Plain(tcp)).await.expect("ws connect").0
+        };
+        let (mut srv, cli) = tokio::join!(server, client);
+        let mut framed = Framed::new(Box::new(WebsocketStream::from(cli)), Codec::new(crate::frames::mode_of(mode)));
+        book.ev(json!({"ev": "Reset", "transport": "ws", "flavor": "tokio", "verify": false, "mode": mode}));
+        let big = pool.max_len();
+        let mut expected: Vec<Vec<u8>> = Vec::new();
+        let mut received: Vec<Vec<u8>> = Vec::new();
+        let mut stalled = false;
+        let mut stalls = 0usize;
+        let mut mismatch = None;
+        'writes: for i in 0..count {
+            let len = if i % 7 == 3 { 4 } else { big };
+            let (p, enc) = match user_packet(&pool, len, seed as usize + i).or_else(|| user_packet(&pool, 8, seed as usize + i)) {
+                Some(x) => x,
+                None => continue,
+            };
+            book.ev(json!({"ev": "WriteCall", "n": enc.len(), "id": i + 1}));
+            expected.push(enc);
+            let fut = framed.write(p);
+            tokio::pin!(fut);
+            let started = std::time::Instant::now();
+            loop {
+                tokio::select! {
+                    r = &mut fut => {
+                        let res = match r { Ok(()) => "ok", Err(_) => "err" };
+                        book.ev(json!({"ev": "WriteDone", "id": i + 1, "res": res}));
+                        if res != "ok" {
+                            mismatch = Some("a write failed under back pressure".to_string());
+                            break 'writes;
+                        }
+                        break;
+                    },
+                    _ = tokio::time::sleep(Duration::from_millis(80)), if !stalled => {
+                        // the writer is blocked by the full socket buffers: from now on the relay reads
+                        stalled = true;
+                        stalls += 1;
+                    },
+                    m = srv.next(), if stalled => {
+                        match m {
+                            Some(Ok(Message::Binary(b))) => received.push(b.to_vec()),
+                            Some(Ok(_)) => {},
+                            _ => { mismatch = Some("the relay's stream ended during the burst".to_string()); break 'writes; },
+                        }
+                    },
+                }
+                if started.elapsed() > Duration::from_secs(20) {
+                    book.ev(json!({"ev": "WriteDone", "id": i + 1, "res": "timeout"}));
+                    mismatch = Some("a write did not complete under back pressure".to_string());
+                    break 'writes;
+                }
+            }
+            // let the relay fall behind again now and then, so that several stalls occur
+            if stalled && i % 97 == 0 {
+                stalled = false;
+            }
+        }
+        // drain: everything that was written, and a little longer to see a message too many
+        loop {
+            let limit = if received.len() < expected.len() { Duration::from_millis(3000) } else { Duration::from_millis(300) };
+            match tokio::time::timeout(limit, srv.next()).await {
+                Ok(Some(Ok(Message::Binary(b)))) => received.push(b.to_vec()),
+                Ok(Some(Ok(_))) => {},
+                _ => break,
+            }
+            if received.len() > expected.len() + 8 {
+                break;
+            }
+        }
+        for (k, b) in received.iter().enumerate() {
+            let ok = expected.get(k).map(|e| e == b).unwrap_or(false);
+            book.ev(json!({"ev": "Unit", "n": b.len(), "ok": ok}));
+            if !ok && mismatch.is_none() {
+                mismatch = Some(format!("message {} received by the relay is not the frame of packet {}", k + 1, k + 1));
+            }
+        }
+        for _ in received.len()..expected.len() {
+            book.ev(json!({"ev": "Unit", "n": 0, "ok": false}));
+        }
+        book.ev(json!({"ev": "Skipped", "stalls": stalls, "written": expected.len(), "received": received.len()}));
+        SessionResult { events: book.sh.events.clone(), mismatch, skipped: None }
+    })
+}
+
 pub fn run(pool: Arc<Pool>, s: &Session, seed: u64) -> SessionResult {
     match (s.transport.as_str(), s.flavor.as_str()) {
         ("udp", "blocking") => run_udp_blocking(pool, s, seed),
